@@ -542,6 +542,10 @@ def tlc_wait(job, timeout):
         job["fh"].close()
         shutil.rmtree(job["meta"], ignore_errors=True)
     res = core.TLCResult(open(job["out"]).read(), job["p"].returncode, time.time() - job["t0"])
+    import re
+    m = re.search(r"Finished in (?:(\d+)h )?(?:(\d+)min )?(\d+)s", res.out)   # TLC's own wall time (the job may have
+    if m:                                                                    # finished long before it was waited for)
+        res.wall = int(m.group(1) or 0) * 3600 + int(m.group(2) or 0) * 60 + int(m.group(3))
     return res
 
 
